@@ -3,7 +3,7 @@
 # worktree (/tmp/mutverify; /repo itself is not touched while helpers are extracting from it).  Prints one summary line.
 ID="$1"; TIER="${2:-quick}"
 PROP=$(python3 -c "import json;print(json.load(open('/verif/seeded/$ID/meta.json'))['property'])")
-WT=/tmp/mutverify
+WT=${WT:-/tmp/mutverify}
 [ -d $WT ] || git -C /repo worktree add --detach $WT HEAD >/dev/null 2>&1
 cd $WT && git checkout -q --detach "$(git -C /repo rev-parse HEAD)" && git checkout -- . && git apply /verif/seeded/$ID/patch.diff || { echo "$ID patch does not apply"; exit 9; }
 cd /verif && VERIF_REPO=$WT VERIF_EVIDENCE_DIR=/verif/out/evidence_seeded ./check $PROP --tier $TIER > /verif/out/seeded_try_$ID.log 2>&1
